@@ -156,17 +156,17 @@ def install_parse(reg):
     ens.append(("C16-forwarded-stripped-unless-trusted", "implies(not trusted('forwarded'), 'FORWARDED' in result)"))
     UNSET = ["X_FORWARDED_FOR", "X_FORWARDED_HOST", "X_FORWARDED_PROTO", "X_FORWARDED_PORT", "X_FORWARDED_BY", "FORWARDED"]
     FLOW = [
-        ("proto-value-only-from-trusted-kinds", "implies(forwarded_proto != '', trusted('x-forwarded-proto') or trusted('forwarded'))"),
-        ("host-value-only-from-trusted-kinds", "implies(forwarded_host != '', trusted('x-forwarded-host') or trusted('forwarded'))"),
-        ("port-value-only-from-trusted-kinds", "implies(forwarded_port != '', trusted('x-forwarded-port') or trusted('x-forwarded-proto') or trusted('x-forwarded-host') or trusted('forwarded'))"),
-        ("address-value-only-from-trusted-kinds", "implies(client_addr is not None and client_addr != '', trusted('x-forwarded-for') or trusted('forwarded'))"),
-        ("forwarded-value-only-if-trusted", "implies(forwarded is not None and forwarded != '', trusted('forwarded'))"),
-        ("forwarded-is-the-header-value", "implies(forwarded is not None and forwarded != '', 'HTTP_FORWARDED' in environ)"),
+        ("C16-proto-value-only-from-trusted-kinds", "implies(forwarded_proto != '', trusted('x-forwarded-proto') or trusted('forwarded'))"),
+        ("C16-host-value-only-from-trusted-kinds", "implies(forwarded_host != '', trusted('x-forwarded-host') or trusted('forwarded'))"),
+        ("C16-port-value-only-from-trusted-kinds", "implies(forwarded_port != '', trusted('x-forwarded-port') or trusted('x-forwarded-proto') or trusted('x-forwarded-host') or trusted('forwarded'))"),
+        ("C16-address-value-only-from-trusted-kinds", "implies(client_addr is not None and client_addr != '', trusted('x-forwarded-for') or trusted('forwarded'))"),
+        ("C16-forwarded-value-only-if-trusted", "implies(forwarded is not None and forwarded != '', trusted('forwarded'))"),
+        ("C16-forwarded-is-the-header-value", "implies(forwarded is not None and forwarded != '', 'HTTP_FORWARDED' in environ)"),
     ]
-    UNCHANGED = lambda keys: [("%s-untouched-so-far" % k, "same_entry(environ, old(environ), %r)" % k) for k in keys]
+    UNCHANGED = lambda keys: [("C16-%s-untouched-so-far" % k, "same_entry(environ, old(environ), %r)" % k) for k in keys]
     ALLMETA = UNCHANGED(META_KEYS)
-    STRIP = lambda upto: [("%s-still-listed-unless-trusted" % KINDS[i], "implies(not trusted(%r) and not trusted('forwarded'), %r in untrusted_headers)" % (KINDS[i], UNSET[i])) for i in range(upto)]
-    PENDING = lambda frm: [("%s-not-yet-removed" % UNSET[i], "%r in untrusted_headers" % UNSET[i]) for i in range(frm, 5)]
+    STRIP = lambda upto: [("C16-%s-still-listed-unless-trusted" % KINDS[i], "implies(not trusted(%r) and not trusted('forwarded'), %r in untrusted_headers)" % (KINDS[i], UNSET[i])) for i in range(upto)]
+    PENDING = lambda frm: [("C16-%s-not-yet-removed" % UNSET[i], "%r in untrusted_headers" % UNSET[i]) for i in range(frm, 5)]
     LOC = lambda fwd_is_list, fwd_opt: {"forwarded_for": (ListOf(S) if fwd_is_list else S), "forwarded_host": S, "forwarded_proto": S, "forwarded_port": S,
                                         "forwarded": (Opt(S) if fwd_opt else S), "client_addr": Opt(S), "untrusted_headers": ("strset", UNSET)}
     pp = reg.add(FuncContract(PH + ".parse_proxy_headers",
@@ -188,16 +188,16 @@ def install_parse(reg):
     for i, a in enumerate(anchors):
         inv = list(FLOW)
         if i <= 4:                                    # before / between the X-Forwarded-* blocks and the Forwarded selection
-            inv += ALLMETA + STRIP(i + 1) + PENDING(i + 1) + [("forwarded-still-listed", "'FORWARDED' in untrusted_headers")]
+            inv += ALLMETA + STRIP(i + 1) + PENDING(i + 1) + [("C16-forwarded-still-listed", "'FORWARDED' in untrusted_headers")]
             loc = LOC(True, False)
         elif i == 5:                                  # if forwarded:
-            inv += ALLMETA + [(n, t.replace(" and not trusted('forwarded')", "")) for n, t in STRIP(5)] + [("forwarded-listed-unless-trusted", "implies(not trusted('forwarded'), 'FORWARDED' in untrusted_headers)")]
+            inv += ALLMETA + [(n, t.replace(" and not trusted('forwarded')", "")) for n, t in STRIP(5)] + [("C16-forwarded-listed-unless-trusted", "implies(not trusted('forwarded'), 'FORWARDED' in untrusted_headers)")]
             loc = LOC(True, True)
         else:
             done = {6: [], 7: ["wsgi.url_scheme"], 8: ["wsgi.url_scheme", "SERVER_NAME", "HTTP_HOST"], 9: ["wsgi.url_scheme", "SERVER_NAME", "HTTP_HOST", "SERVER_PORT"]}[i]
             inv += UNCHANGED([k for k in META_KEYS if k not in done])
             inv += [e for e in ens if any(d in e[1] for d in done) and "result" not in e[1]]
-            inv += [(n, t.replace(" and not trusted('forwarded')", "")) for n, t in STRIP(5)] + [("forwarded-listed-unless-trusted", "implies(not trusted('forwarded'), 'FORWARDED' in untrusted_headers)")]
+            inv += [(n, t.replace(" and not trusted('forwarded')", "")) for n, t in STRIP(5)] + [("C16-forwarded-listed-unless-trusted", "implies(not trusted('forwarded'), 'FORWARDED' in untrusted_headers)")]
             loc = LOC(False, True)
         cuts.append(Cut(a, inv, loc))
     pp.cuts = cuts
